@@ -497,6 +497,11 @@ def run(ctx):
     spaces = []
     wide_rows = None
 
+    # law of the specification itself: the enumeration ExprSeq lists every tree of the set Exprs exactly once
+    sz = px.space_size(ctx.scratch, 'bool', 3, st.tlc, distinct=True)
+    if sz['exprs'] != sz['distinct']:
+        raise MachineryError('ExprSeq(bool, 3) has %d entries but Exprs(bool, 3) has %d elements' % (sz['exprs'], sz['distinct']))
+
     for alpha, n in plan['lambdas']:
         A = px.alphabet(ctx.scratch, alpha, st.tlc)
         before = st.c['trees']
@@ -573,6 +578,7 @@ def run(ctx):
         'cache_equal_bytecode_functions_checked_alive_together': c['cache_equal_bytecode_functions_checked_alive_together'],
         'ast_cache_entries_at_end': len(decompiling.ast_cache),
         'spaces': spaces,
+        'enumeration_equals_set': 'Len(ExprSeq(bool, 3)) = Cardinality(Exprs(bool, 3)) = %d (checked by TLC)' % sz['exprs'],
         'tlc': st.tlc,
         'rule': 'program = one compiled form (lambda with parameters / with globals / closure; generator at module level / in a function) '
                 'of one tree of the spaces listed under "spaces", decompiled by the real decompile(); its AST is compiled and compared with '
